@@ -148,6 +148,10 @@ def sc5(F, R):
             return y[0] == "iter" and y[2] in ("chars", "char_indices", "bytes")
         skips = [x for x in walk_arg(key) if x[0] == "adapt" and x[1] in ("skip", "skip_while", "take", "take_while", "filter", "step_by", "rev") and over_chars(x)]
         bad_skip = [x[1] for x in skips if not (x[1] == "skip" and strip_load(x[3][0]) == ("const", 1))]
+        # exactly one: `$ν5` is the variable named `ν5`, not the number 5
+        strips = len(skips) + sum(1 for x in names if x in ("strip_prefix", "split_at", "split_first"))
+        if strips > 1:
+            bad_skip = bad_skip + ["%d leading characters removed" % strips]
         if bad or bad_skip:
             R.bad("SC5", "SC5/Script::deploy_to/identifier-text-altered", e.where(),
                   "an identifier is not used as written minus exactly its one sigil (%s): different texts name the same vertex or "
